@@ -17,7 +17,8 @@ EXTENDS Naturals, Sequences, FiniteSets, TLC
 CONSTANTS NTasks, N, MaxOps, MaxRec, MaxT, MTypes,
           Kinds,   \* scope kinds the environment opens: subset of {"s", "a"} (sync / async)
           Bug
-(* MTypes \subseteq {"Cat", "Last", "Sum", "Boom"} *)
+(* MTypes \subseteq {"Cat", "Last", "Sum", "Boom", "Same"}
+   "Same": every record is the very same (shared, immutable) instance, folded by addition - the value counts the records *)
 
 Tasks == 1..NTasks
 S == 1..N
@@ -74,7 +75,7 @@ RECURSIVE ViewOf(_, _, _, _)
 MergeVal(m, lhs, rhs) ==
   IF rhs = <<>> THEN lhs ELSE IF lhs = <<>> THEN rhs
   ELSE CASE m = "Cat" -> lhs \o rhs
-         [] m = "Sum" -> <<lhs[1] + rhs[1]>>
+         [] m \in {"Sum", "Same"} -> <<lhs[1] + rhs[1]>>
          [] OTHER -> rhs
 RECURSIVE FoldKids(_, _, _, _, _)
 FoldKids(vs, ks, m, q, acc) ==
@@ -187,8 +188,9 @@ Record(t, m) ==
        THEN vals' = vals
        ELSE LET old == vals[s][m] IN
             vals' = [vals EXCEPT ![s][m] =
-                       IF old = <<>> THEN <<x>>
-                       ELSE CASE m = "Cat" -> IF Bug = "merge_swapped" THEN <<x>> \o old ELSE old \o <<x>>
+                       IF old = <<>> THEN (IF m = "Same" THEN <<1>> ELSE <<x>>)
+                       ELSE CASE m = "Same" -> <<old[1] + 1>>
+                              [] m = "Cat" -> IF Bug = "merge_swapped" THEN <<x>> \o old ELSE old \o <<x>>
                               [] m = "Sum" -> <<old[1] + x>>
                               [] m = "Boom" -> old            \* merge function raises: record dropped
                               [] OTHER -> <<x>>]
